@@ -323,6 +323,8 @@ def split(rng, G):
         used_by_m1 = set()
         for r in m1_rules:
             used_by_m1 |= rule_refs(r) & S2
+        for t in m1_terms:
+            used_by_m1 |= {('t', d) for d in t.get('deps', [])} & S2        # a composed terminal of m1 whose base lives in m2
         for x in sorted(used_by_m1):
             extra1.append('%%import %s.%s' % ('.m2' if rel else 'm2', x[1]))
     # an %ignore inside a module must not be honoured
